@@ -1,4 +1,5 @@
 import GaeaVerif.Model.Merge
+import GaeaVerif.Model.MergeLead
 /-
   C02: the decidable class of statements covered by the theorems of
   Props/C02.lean (definitions only, so that the driver can report which
@@ -54,17 +55,25 @@ def planOK (schema : List Ty) (p : Plan) (cq cq' : CQ) : Bool :=
     | some (o, c) => decide (p.offset = o) && decide (p.count = c) &&
         (decide (cq'.limit = some (0, o + c)) || decide (cq'.limit = none)))
 
-/-- the class of statements the merge theorems cover (besides the plan invariant) -/
+/-- every ORDER BY expression is one of the selected expressions -/
+def keysSelected (cq : CQ) : Bool := cq.keys.all fun k => cq.items.contains k.1
+
+/-- every hidden column of the per-table statement repeats a selected expression -/
+def hiddenSelected (cq cq' : CQ) : Bool := (cq'.items.drop cq.items.length).all fun it => cq.items.contains it
+
+/-- the class of statements the merge theorems cover (besides the plan invariant):
+    projections (SELECT DISTINCT: hidden columns only as copies of selected ones);
+    aggregate functions without GROUP BY (with or without DISTINCT); GROUP BY
+    without the per-table LIMIT, or with it when ORDER BY starts with all GROUP BY
+    columns; SELECT DISTINCT over GROUP BY when ORDER BY names selected expressions only -/
 def classOK (p : Plan) (cq cq' : CQ) : Bool :=
-  if cq.distinct then
-    -- SELECT DISTINCT: projections without hidden columns
-    !cq.aggregated && !cq'.aggregated && decide (cq'.items.length = cq.items.length)
-  else
-  (if !cq.aggregated then !cq'.aggregated
-   else match cq.group with
-     | none => cq'.aggregated && cq'.items.any Item.isAgg && cq'.items.all Item.isAgg &&
-               decide (p.originColumnCount = cq.items.length)
-     | some _ => decide (cq'.limit = none))
+  if !cq.aggregated then
+    !cq'.aggregated && (!cq.distinct || hiddenSelected cq cq')
+  else match cq.group with
+    | none => cq'.aggregated && cq'.items.any Item.isAgg && cq'.items.all Item.isAgg &&
+              decide (p.originColumnCount = cq.items.length)
+    | some g =>
+      (decide (cq'.limit = none) || leadCovers g cq.keys) && (!cq.distinct || keysSelected cq)
 
 /-- **The supported class** (decidable): the statement compiles; if it has to
     be merged from several sub-tables (or none), the planner's rewriting
